@@ -36,7 +36,8 @@ LEVEL_TEXT = ("Exploration: thousands of configurations with radii and heights l
               " Both centres as int32 / int16 arrays with separations beyond 46340 / 181."
               " Other composites are built (one measured) between building a composite and measuring it; every volume is asked for twice."
               " Sphere pairs in small length units (1e-5 .. 1e-9)."
-              " The caller reuses its coordinate arrays after the solids are built.")
+              " The caller reuses its coordinate arrays after the solids are built."
+              " Sphere-frustum solids under two-decimal print options right after a near twin.")
 LEVEL_NOTE = ("Trusts scipy.integrate.quad (epsrel 1e-12, break points supplied). Tolerance: "
               "1e-7 of the smaller solid's volume + 1e-12 of the larger; inside the library's own "
               "eps = 1e-6 fast-path band (0 < r_near - r_far <= 1e-6) an allowance of "
